@@ -33,6 +33,14 @@ def lib_calls(ctx, f, names):
     return out
 
 
+# frozen reference: the types each mapper gives a branch of its own (read from the confirmed tree; the mapping is part of the serializer's documented behaviour)
+HANDLED_TYPES = {
+    "JsonSerializer": {"set", "uuid.UUID", "datetime.datetime", "datetime.date", "decimal.Decimal", "array.array"},
+    "MsgpackSerializer": {"set", "uuid.UUID", "complex", "datetime.datetime", "datetime.date", "decimal.Decimal", "numbers.Number", "array.array"},
+    "MarshalSerializer": {"array.array", "tuple", "list", "set", "frozenset", "dict"},
+}
+
+
 def _truthy(v):
     return v not in ("False", "None", "0")
 
@@ -372,6 +380,19 @@ def run(ctx, R, tier):
                     for b in ni:
                         if (a, b) in SUBTYPE:
                             bad = (a, b, sj)
+        # the documented mapping has a branch of its own for every type in the frozen table below (confirmed by reading): a type that loses its branch falls through to
+        # class_to_dict - it is then sent as a class dict the receiver refuses, or in a different form than before, for values no test sends
+        handled = {a for ni, _, _ in chain for a in ni}
+        missing_t = sorted(HANDLED_TYPES[fq.rsplit(".", 2)[1]] - handled)
+        R.check(not missing_t, "C01-R8", "%s|every-mapped-type-has-its-branch" % fq.split(".", 2)[2], "each type of this mapper's documented mapping is tested by an isinstance branch (%d types)" % len(HANDLED_TYPES[fq.rsplit(".", 2)[1]]),
+                g.loc(), "no isinstance branch for %s any more: values of that type are no longer converted the way the fixed mapping says (they reach class_to_dict / the encoder as they are)" % ", ".join(missing_t))
+        # a container is rebuilt as the type it was: `T(converted) if isinstance(obj, T) else ...`
+        for ie in [n for n in walk_no_nested(g.node) if isinstance(n, ast.IfExp) and isinstance(n.body, ast.Call) and isinstance(n.body.func, ast.Name)
+                   and n.body.func.id in ("set", "frozenset", "tuple", "list", "dict")]:
+            tst = ie.test
+            okt = isinstance(tst, ast.Call) and unparse(tst.func) == "isinstance" and len(tst.args) == 2 and unparse(tst.args[1]) == ie.body.func.id
+            R.check(okt, "C01-R8", "%s|rebuilt-as-%s-only-if-it-was-one" % (fq.split(".", 2)[2], ie.body.func.id), "a converted container is rebuilt as %s exactly under isinstance(obj, %s)" % (ie.body.func.id, ie.body.func.id),
+                    g.loc(ie), "`%s`: the container type chosen for the converted members no longer depends on the type of the original - tuples and sets arrive as another container type" % unparse(ie, 90))
         R.check(bad is None and len(chain) >= 2, "C01-R8", "%s|dispatch-order" % fq.split(".", 2)[2], "no branch for a subtype comes after a returning branch for its supertype (%d branches)" % len(chain),
                 g.loc(), ("the branch for %s comes after the branch for %s, which already matches it: values of that type take the wrong mapping" % (bad[0], bad[1])) if bad else "dispatch chain vanished")
 
